@@ -1,2 +1,5 @@
 import DateutilVerif.Properties.C08
-#print axioms C08.placeholder
+#print axioms C08.rule_instant
+#print axioms C08.transitions_eq_posix_partial
+#print axioms C08.no_dst_part_is_fixed
+#print axioms C08.weekdayJump_first_bounds
